@@ -259,3 +259,14 @@ Proof.
   split; [vm_compute; reflexivity|]. split; [repeat constructor|]. repeat split; vm_compute; reflexivity.
 Qed.
 
+
+(* a server-streaming (or bidi) RPC whose response is google.protobuf.Empty is rendered like a void unary RPC: the call
+   object is neither assigned nor returned, so the caller gets None instead of the stream and cannot consume the replies *)
+Lemma stream_delivers_all_refuted :
+  exists m replies, me_ss m = true /\ me_void m = true /\ replies <> [] /\
+    client_result m replies <> RetStream replies /\ client_result m replies = RetNone /\
+    (forall v, c_assigned (call_of v m) = false /\ c_returns (call_of v m) = false /\ c_awaited (call_of v m) = false).
+Proof.
+  exists (mkMeth "WatchVoid" false true true false true false false), ["a"; "b"].
+  repeat split; try reflexivity; try discriminate. all: destruct v; reflexivity.
+Qed.
